@@ -273,6 +273,39 @@ theorem occ_keys_pos (ps : List Part) (h : ∀ q ∈ ps, q.wf = true) :
 theorem count_digits_zero {ds : List Char} (hd : ∀ c ∈ ds, c.isDigit = true) (x : Char) (hx : x.isDigit = false) :
     x ∉ ds := fun hc => by have := hd x hc; rw [hx] at this; exact absurd this (by decide)
 
+theorem isDigit_notPySpace (c : Char) (h : c.isDigit = true) : isPySpace c = false := by
+  have h1 : c ≠ ' ' := isDigit_ne h (by decide)
+  have h2 : c ≠ '\t' := isDigit_ne h (by decide)
+  have h3 : c ≠ '\n' := isDigit_ne h (by decide)
+  have h4 : c ≠ '\r' := isDigit_ne h (by decide)
+  have h5 : c ≠ '\x0b' := isDigit_ne h (by decide)
+  have h6 : c ≠ '\x0c' := isDigit_ne h (by decide)
+  simp [isPySpace, h1, h2, h3, h4, h5, h6]
+
+theorem dropSpaces_head {s : List Char} (h : ∀ c, s.head? = some c → isPySpace c = false) : dropSpaces s = s := by
+  cases s with
+  | nil => rfl
+  | cons c r => simp [dropSpaces, h c (by simp)]
+
+theorem mem_of_head? {s : List Char} {c : Char} (h : s.head? = some c) : c ∈ s := by
+  cases s with
+  | nil => simp at h
+  | cons x r => simp at h; subst h; simp
+
+theorem stripPy_digits {ds : List Char} (hd : ∀ c ∈ ds, c.isDigit = true) : stripPy ds = ds := by
+  have h1 : dropSpaces ds = ds := dropSpaces_head (fun c hc => isDigit_notPySpace c (hd c (mem_of_head? hc)))
+  have h2 : dropSpaces ds.reverse = ds.reverse :=
+    dropSpaces_head (fun c hc => isDigit_notPySpace c (hd c (by simpa using mem_of_head? hc)))
+  rw [stripPy, h1, h2, List.reverse_reverse]
+
+/-- on a plain ASCII digit string the model of `int()` is the decimal value -/
+theorem pyInt_digits (ds : List Char) (h : isDigits ds = true) : pyInt ds = some (digitsVal ds) := by
+  obtain ⟨hne, hd⟩ := (isDigits_iff ds).mp h
+  have ht : takeDigits ds = (ds, []) := by
+    have := takeDigits_append ds [] hd (by intro c hc; simp at hc)
+    simpa using this
+  simp [pyInt, stripPy_digits hd, intDigits, ht, hne]
+
 theorem getCharge_render (c : Charge) (h : c.wf = true) : getCharge c.render = .ok c.val := by
   obtain ⟨neg, mag⟩ := c
   cases mag with
@@ -282,8 +315,7 @@ theorem getCharge_render (c : Charge) (h : c.wf = true) : getCharge c.render = .
     have hp : '+' ∉ ds := count_digits_zero hd _ (by decide)
     have hm : '-' ∉ ds := count_digits_zero hd _ (by decide)
     have hlen : 0 < ds.length := List.length_pos_iff.mpr hne
-    have hint : pyInt ds = some (digitsVal ds) := by
-      simp [pyInt, (isDigits_iff ds).mpr ⟨hne, hd⟩]
+    have hint : pyInt ds = some (digitsVal ds) := pyInt_digits ds ((isDigits_iff ds).mpr ⟨hne, hd⟩)
     cases neg with
     | false =>
       have hs : splitAtChar '+' ('+' :: ds) = ([], ds) := by simpa using splitAtChar_append '+' [] ds (by simp)
